@@ -138,9 +138,16 @@ func (m *Manager) startPipeline(ctx context.Context, pipeline ledger.Pipeline) (
 	m.logger.Infof("starting handler")
 	go func() {
 		for lastLogID := range subscription {
-			if err := m.storage.StorePipelineState(ctx, pipeline.ID, lastLogID); err != nil {
-				m.logger.Errorf("Unable to store state: %s", err)
+			// stopPipeline takes stateMu before it returns: once a pipeline is reported
+			// stopped, no store of its state is in flight and none can start, so a
+			// reset (which clears last_log_id) cannot be overwritten by a late store.
+			pipelineHandler.stateMu.Lock()
+			if !pipelineHandler.stateDiscarded {
+				if err := m.storage.StorePipelineState(ctx, pipeline.ID, lastLogID); err != nil {
+					m.logger.Errorf("Unable to store state: %s", err)
+				}
 			}
+			pipelineHandler.stateMu.Unlock()
 		}
 	}()
 	go func() {
@@ -165,6 +172,9 @@ func (m *Manager) stopPipeline(ctx context.Context, id string) error {
 	if err := handler.Shutdown(ctx); err != nil {
 		return fmt.Errorf("error stopping pipeline: %w", err)
 	}
+	handler.stateMu.Lock()
+	handler.stateDiscarded = true
+	handler.stateMu.Unlock()
 	delete(m.pipelines, id)
 
 	m.logger.Infof("pipeline terminated, pruning exporter...")
